@@ -1282,7 +1282,14 @@ def c13(tier, seed):
             st.append({"start": "B"})
         st.append({"settle": 20})
         st.append({"threads": groups + [kick] + ([[{"send": "B", "event": {"name": "go"}}]] if peer_n else [])})
-        st.append({"settle": 120})
+        # the end of the scenario does not depend on how fast the threads are scheduled: the last timer event and the last
+        # event of the peer are awaited (bounded), then everything queued is processed (barrier)
+        if "timer" in prods:
+            st.append({"await_xr": "A", "name": prods["timer"][-1], "max_ms": 15000})
+        if peer_n:
+            st.append({"await_xr": "A", "name": prods["peer"][-1], "max_ms": 15000})
+        st.append({"barrier": True})
+        st.append({"settle": 60})
     # B needs A's session id: sessions are started in order A, B -> ids are consecutive; B is told through its <data>
     results = {}
     # run scenarios one by one for those with a peer (session ids), in parallel otherwise
@@ -1298,9 +1305,9 @@ def c13(tier, seed):
         seq = []
         for x in recs:
             # (events of the first, cancelled child 'k1.*' may or may not arrive: not part of any producer's obligation)
-            if x[0] == "XR" and x[1]["name"] != "error.platform.cancel" and not x[1]["name"].startswith("k1."):
+            if x[0] == "XR" and x[1]["name"] != "error.platform.cancel" and not x[1]["name"].startswith(("k1.", "__sync.")):
                 seq.append(["X", x[1]["name"]])
-            elif x[0] == "M" and x[1] in ("B", "E") and not (x[2] and tracelib.val_str(x[2][0]).startswith("k1.")):
+            elif x[0] == "M" and x[1] in ("B", "E") and not (x[2] and tracelib.val_str(x[2][0]).startswith(("k1.", "__sync."))):
                 seq.append([x[1], tracelib.val_str(x[2][0]) if x[2] else ""])
         runs.append({"prods": prods, "seq": seq, "jid": j["id"], "panic": bool(r.get("panics")), "stall": bool(r.get("stalls"))})
     with open(os.path.join(wd, "traces.ndjson"), "w") as f:
@@ -1313,7 +1320,9 @@ def c13(tier, seed):
         run = runs[v[1] - 1]
         V.report("%s" % v[2], "scenario %d: %s (producers %s, %d events consumed)" % (
             run["jid"], v[2], {k: len(x) for k, x in run["prods"].items()}, sum(1 for e in run["seq"] if e[0] == "X")),
-                 {"class": v[2], "producers": {k: len(x) for k, x in run["prods"].items()}, "consumed_head": run["seq"][:60]})
+                 {"class": v[2], "producers": {k: len(x) for k, x in run["prods"].items()}, "consumed_head": run["seq"][:60],
+                  "missing": sorted({n for x in run["prods"].values() for n in x} - {e[1] for e in run["seq"] if e[0] == "X"})[:40],
+                  "consumed_tail": run["seq"][-30:]})
     tv["text"] = ""
     for run in runs:
         if run["panic"] or run["stall"]:
